@@ -185,6 +185,7 @@ def ev(e, env):
         ops = {ast.Add: lambda: l + r, ast.Sub: lambda: l - r, ast.Mult: lambda: l * r,
                ast.Mod: lambda: l % r, ast.FloorDiv: lambda: l // r, ast.Pow: lambda: l ** r,
                ast.BitOr: lambda: l | r, ast.BitAnd: lambda: l & r, ast.LShift: lambda: l << r,
+               ast.BitXor: lambda: l ^ r,
                ast.RShift: lambda: l >> r}
         if type(e.op) in ops:
             return ops[type(e.op)]()
@@ -229,6 +230,18 @@ def ev(e, env):
     if isinstance(e, ast.IfExp):
         return ev(e.body, env) if ev(e.test, env) else ev(e.orelse, env)
     if isinstance(e, (ast.ListComp, ast.SetComp, ast.GeneratorExp)) and len(e.generators) == 1 \
+            and isinstance(e.generators[0].target, ast.Tuple) \
+            and all(isinstance(x, ast.Name) for x in e.generators[0].target.elts):
+        gen = e.generators[0]
+        out = []
+        for item in ev(gen.iter, env):
+            env2 = dict(env)
+            for x, v_ in zip(gen.target.elts, item):
+                env2[x.id] = v_
+            if all(ev(c, env2) for c in gen.ifs):
+                out.append(ev(e.elt, env2))
+        return frozenset(out) if isinstance(e, ast.SetComp) else tuple(out)
+    if isinstance(e, (ast.ListComp, ast.SetComp, ast.GeneratorExp)) and len(e.generators) == 1 \
             and isinstance(e.generators[0].target, ast.Name):
         gen = e.generators[0]
         out = []
@@ -265,6 +278,9 @@ def ev(e, env):
             raise
         if isinstance(base, Rec) and e.attr in base.fields:
             return base.fields[e.attr]
+        if getattr(base, "_tlsverif_sample", False) and not e.attr.startswith("_") \
+                and not callable(getattr(base, e.attr, None)) and hasattr(base, e.attr):
+            return getattr(base, e.attr)
         if isinstance(base, Sym):
             return Sym("%s.%s" % (base, e.attr))
         raise Unknown(key)
@@ -278,6 +294,40 @@ def ev(e, env):
         base = ev(e.func.value, env)
         if isinstance(base, (frozenset, set, tuple)):
             return getattr(frozenset(base), e.func.attr)(*[frozenset(ev(a, env)) for a in e.args])
+    if isinstance(e, ast.Call) and not e.keywords and env.get("__calls__"):
+        hooks = env["__calls__"]
+        if isinstance(e.func, ast.Name) and e.func.id in hooks:
+            return hooks[e.func.id](*[ev(a, env) for a in e.args])
+        if isinstance(e.func, ast.Attribute) and e.func.attr in hooks:
+            try:
+                recv = ev(e.func.value, env)
+            except Unknown:
+                recv = None
+            return hooks[e.func.attr](recv, *[ev(a, env) for a in e.args])
+    if isinstance(e, ast.Call) and not e.keywords and isinstance(e.func, ast.Attribute):
+        # a method of a record that the row binds (`state.getSeqNumBytes()` -> field "getSeqNumBytes()"),
+        # or of one of the checker's own sample objects (MAC accumulators)
+        try:
+            base_ = ev(e.func.value, env)
+        except Unknown:
+            base_ = None
+        if isinstance(base_, Rec) and (e.func.attr + "()") in base_.fields and not e.args:
+            return base_.fields[e.func.attr + "()"]
+        if getattr(base_, "_tlsverif_sample", False) and not e.func.attr.startswith("_"):
+            return getattr(base_, e.func.attr)(*[ev(a, env) for a in e.args])
+    if isinstance(e, ast.Call) and not e.keywords and isinstance(e.func, ast.Name) \
+            and e.func.id in ("bytearray", "bytes") and len(e.args) <= 1 and env.get("__bytes__"):
+        if not e.args:
+            return b""
+        v_ = ev(e.args[0], env)
+        if isinstance(v_, int) and not isinstance(v_, bool):
+            return bytes(v_)
+        if isinstance(v_, (bytes, bytearray)):
+            return bytes(v_)
+        return bytes(bytearray(list(v_)))
+    if isinstance(e, ast.Call) and not e.keywords and isinstance(e.func, ast.Name) and e.func.id == "zip" \
+            and env.get("__bytes__"):
+        return tuple(zip(*[ev(a, env) for a in e.args]))
     if isinstance(e, ast.Call) and isinstance(e.func, ast.Name) and e.func.id == "isinstance" and len(e.args) == 2 \
             and not e.keywords and env.get("__exc__") is not None:
         inst = ev(e.args[0], env)
@@ -310,7 +360,7 @@ def ev(e, env):
             d = _local_def(env["__fn__"], func)     # `alias = Cls.helper` ... `alias(..)`
             if d is not None and isinstance(d.value, (ast.Attribute, ast.Name)):
                 func = d.value
-        target = _helper(env["__index__"], func)
+        target = _helper(env["__index__"], func, env.get("__selfcls__"))
         if target is not None:
             return _call(target, [ev(a, env) for a in e.args], env)
     raise Unknown(key)
@@ -319,20 +369,22 @@ def ev(e, env):
 _HELPERS = {}
 
 
-def _helper(index, func):
-    k = (id(index), _norm(func))
+def _helper(index, func, selfcls=None):
+    k = (id(index), _norm(func), id(selfcls))
     if k not in _HELPERS:
-        _HELPERS[k] = _helper_uncached(index, func)
+        _HELPERS[k] = _helper_uncached(index, func, selfcls)
     return _HELPERS[k]
 
 
-def _helper_uncached(index, func):
+def _helper_uncached(index, func, selfcls=None):
     if isinstance(func, ast.Name):
         c = [f for f in index.all_functions() if f.cls is None and f.name == func.id]
     elif isinstance(func, ast.Attribute) and isinstance(func.value, ast.Name) and func.value.id in ("self", "cls"):
         # a static method reached through the instance (unique name in the package)
         c = [f for f in index.all_functions() if f.cls is not None and f.name == func.attr
              and any(isinstance(d, ast.Name) and d.id == "staticmethod" for d in f.node.decorator_list)]
+        if not c and selfcls is not None and func.attr in selfcls.methods:
+            c = [selfcls.methods[func.attr]]
     elif isinstance(func, ast.Attribute) and isinstance(func.value, ast.Name):
         c = [f for f in index.all_functions() if f.cls is not None and f.cls.name == func.value.id
              and f.name == func.attr and any(isinstance(d, ast.Name) and d.id == "staticmethod"
@@ -350,12 +402,26 @@ def _call(fi, args, env, depth=0):
     local = {"__index__": env.get("__index__"), "__exc__": env.get("__exc__")}
     if env.get("__sym__"):
         local["__sym__"] = True
+    for k_ in ("__calls__", "__bytes__", "__selfcls__"):
+        if env.get(k_) is not None:
+            local[k_] = env[k_]
+    if env.get("__selfcls__") is not None:
+        # a method of the same object sees the same attributes
+        for k_, v_ in env.items():
+            if isinstance(k_, str) and k_.startswith("self."):
+                local[k_] = v_
     for k_, v_ in env.items():
         if isinstance(k_, str) and k_.startswith("__const__"):
             local[k_[9:]] = v_       # module-level constants the caller resolved
             local[k_] = v_
     names = [x.arg for x in a.args]
-    defaults = [None] * (len(names) - len(a.defaults)) + list(a.defaults)
+    if names and names[0] == "self" and fi.cls is not None and env.get("__selfcls__") is not None and not any(
+            isinstance(d, ast.Name) and d.id == "staticmethod" for d in fi.node.decorator_list):
+        names = names[1:]       # a method called on the object the caller is evaluating
+    if len(args) > len(names):
+        raise Unknown("call of " + fi.qname)
+    defaults = [None] * (len(names) - len(a.defaults)) + list(a.defaults) if len(a.defaults) <= len(names) \
+        else list(a.defaults)[-len(names):]
     for i, nm in enumerate(names):
         if i < len(args):
             local[nm] = args[i]
@@ -406,6 +472,141 @@ def _call(fi, args, env, depth=0):
     except _Ret as r:
         return r.value
     return None
+
+
+class _Break(Exception):
+    pass
+
+
+class _Continue(Exception):
+    pass
+
+
+class Returned(Exception):
+    """a `return` met by exec_block (value in .value)"""
+    def __init__(self, value):
+        Exception.__init__(self)
+        self.value = value
+
+
+class Raised(Exception):
+    """a `raise` met by exec_block (exception expression text in .what)"""
+    def __init__(self, what):
+        Exception.__init__(self)
+        self.what = what
+
+
+def exec_block(stmts, env, stop=None):
+    """interpret a block of assignments / if / for (with break, continue) over `env` (updated in
+    place); `stop(stmt)` ends the interpretation before that statement (returns True then).  Anything
+    else in the block raises Unknown.  Nothing of the library is run."""
+    for st in stmts:
+        if stop is not None and stop(st):
+            return True
+        if isinstance(st, ast.Pass) or (isinstance(st, ast.Expr) and isinstance(st.value, ast.Constant)):
+            continue
+        if isinstance(st, ast.Assign) and len(st.targets) == 1:
+            tg = st.targets[0]
+            if env.get("__stmts__"):
+                if isinstance(tg, (ast.Attribute, ast.Subscript)):
+                    continue        # state of the object itself is not followed
+                try:
+                    val = ev(st.value, env)
+                except Unknown:
+                    for x in ast.walk(tg):
+                        if isinstance(x, ast.Name):
+                            env.pop(x.id, None)     # unknown from here on
+                    continue
+            else:
+                val = ev(st.value, env)
+            if isinstance(tg, ast.Name):
+                env[tg.id] = val
+            elif isinstance(tg, ast.Tuple) and all(isinstance(x, ast.Name) for x in tg.elts) \
+                    and isinstance(val, (tuple, list)) and len(val) == len(tg.elts):
+                for x, v_ in zip(tg.elts, val):
+                    env[x.id] = v_
+            else:
+                raise Unknown("assignment target " + _norm(tg))
+            continue
+        if isinstance(st, ast.If):
+            if exec_block(st.body if ev(st.test, env) else st.orelse, env, stop):
+                return True
+            continue
+        if isinstance(st, ast.For):
+            items = list(ev(st.iter, env))
+            if len(items) > (4096 if env.get("__stmts__") else 64):
+                raise Unknown("long loop")
+            broke = False
+            for it in items:
+                tg = st.target
+                if isinstance(tg, ast.Name):
+                    env[tg.id] = it
+                elif isinstance(tg, ast.Tuple) and all(isinstance(x, ast.Name) for x in tg.elts) \
+                        and isinstance(it, (tuple, list)) and len(it) == len(tg.elts):
+                    for x, v_ in zip(tg.elts, it):
+                        env[x.id] = v_
+                else:
+                    raise Unknown("loop target")
+                try:
+                    if exec_block(st.body, env, stop):
+                        return True
+                except _Break:
+                    broke = True
+                    break
+                except _Continue:
+                    continue
+            if not broke and st.orelse:
+                if exec_block(st.orelse, env, stop):
+                    return True
+            continue
+        if isinstance(st, ast.Break):
+            raise _Break()
+        if isinstance(st, ast.Continue):
+            raise _Continue()
+        if env.get("__stmts__"):
+            # whole-function interpretation (sample values): a few more statement kinds
+            if isinstance(st, ast.AugAssign) and isinstance(st.target, ast.Name):
+                if st.target.id not in env:
+                    raise Unknown(st.target.id)
+                l, r = env[st.target.id], ev(st.value, env)
+                ops = {ast.Add: lambda: l + r, ast.Sub: lambda: l - r, ast.Mult: lambda: l * r,
+                       ast.Mod: lambda: l % r, ast.FloorDiv: lambda: l // r, ast.BitOr: lambda: l | r,
+                       ast.BitAnd: lambda: l & r, ast.BitXor: lambda: l ^ r, ast.LShift: lambda: l << r,
+                       ast.RShift: lambda: l >> r}
+                if type(st.op) not in ops:
+                    raise Unknown("augmented assignment")
+                env[st.target.id] = ops[type(st.op)]()
+                continue
+            if isinstance(st, ast.While) and not st.orelse:
+                turns = 0
+                while ev(st.test, env):
+                    turns += 1
+                    if turns > 4096:
+                        raise Unknown("long loop")
+                    try:
+                        if exec_block(st.body, env, stop):
+                            return True
+                    except _Break:
+                        break
+                    except _Continue:
+                        continue
+                continue
+            if isinstance(st, ast.Return):
+                raise Returned(None if st.value is None else ev(st.value, env))
+            if isinstance(st, ast.Raise):
+                raise Raised(_norm(st.exc) if st.exc is not None else "")
+            if isinstance(st, ast.Assert):
+                continue
+            if isinstance(st, ast.Expr):
+                try:
+                    ev(st.value, env)
+                except Unknown:
+                    pass
+                continue
+            if isinstance(st, ast.Assign) and len(st.targets) == 1 and isinstance(st.targets[0], (ast.Attribute, ast.Subscript)):
+                continue        # state of the object itself is not followed
+        raise Unknown("statement " + type(st).__name__)
+    return False
 
 
 def mismatches(expr, domain, spec, limit=3):
